@@ -120,6 +120,17 @@ static Reg r_accum("accum", [](const Args& a) {
     else if (t[0] == 'n') acc *= -1;
     else if (t[0] == 'i') acc *= std::atoi(t.c_str() + 2);
     else if (t[0] == 'm') acc *= unhx(t.substr(2));
+    else if (t[0] == 's') acc = unhx(t.substr(2));                 // assignment: the held sum is exactly y afterwards
+    else if (t[0] == 'd') acc -= unhx(t.substr(2));
+    else if (t[0] == 'c') { Accumulator<double> b(acc); acc = Accumulator<double>(); acc = b; }   // copy round trip
+    else if (t[0] == 'r') {                                      // remainder: congruent mod y, |result| <= |y|/2 up to the low word
+      double y = unhx(t.substr(2)); Accumulator<double> b(acc); b.remainder(y);
+      if (std::isfinite(acc._s) && !(std::fabs(b()) <= std::fabs(y) / 2 * (1 + 4e-16))) bad("accum-remainder-range", "|remainder| > |y|/2");
+    }
+    else if (t[0] == 'q') {                                      // Sum(y) is const and equals (acc += y)()
+      double y = unhx(t.substr(2)); Accumulator<double> b(acc); double q = acc.Sum(y); b += y;
+      if (!(q == b() || (std::isnan(q) && std::isnan(b())))) bad("accum-sum-const", "Sum(y) differs from (acc += y)()");
+    }
   }
   emit(hx(acc._s) + " " + hx(acc._t));
 });
@@ -153,8 +164,12 @@ void gv::generate(const std::string& tier, uint64_t seed) {
     if (i % 10 == 0) {
       Args ops; int len = r.irange(1, 30);
       for (int k = 0; k < len; ++k) {
-        int c = r.irange(0, 9);
-        if (c < 7) ops.push_back("a:" + hx(std::ldexp(r.range(-1, 1), r.irange(-30, 30))));
+        int c = r.irange(0, 13);
+        if (c == 10) ops.push_back("s:" + hx(std::ldexp(r.range(-1, 1), r.irange(-30, 30))));
+        else if (c == 11) ops.push_back("d:" + hx(std::ldexp(r.range(-1, 1), r.irange(-30, 30))));
+        else if (c == 12) ops.push_back(r.coin() ? "c" : "q:" + hx(std::ldexp(r.range(-1, 1), r.irange(-30, 30))));
+        else if (c == 13) ops.push_back("r:" + hx(r.pick(std::vector<double>{360.0, 180.0, 1.0, 0.7})));
+        else if (c < 7) ops.push_back("a:" + hx(std::ldexp(r.range(-1, 1), r.irange(-30, 30))));
         else if (c == 7) ops.push_back("n");
         else if (c == 8) ops.push_back("i:" + std::to_string(r.pick(std::vector<int>{-1, 1, 2, -2, 4, -8, 1024}))); // documented: only +/- powers of two
         else ops.push_back("m:" + hx(r.range(-3, 3)));
